@@ -1,6 +1,7 @@
 package rules
 
 import (
+	"go/types"
 	"fmt"
 	"go/token"
 	"regexp"
@@ -328,4 +329,9 @@ func templateStores(c *km.Ctx, fn *ssa.Function, typ, ctor string) map[string][]
 		}
 	}
 	return out
+}
+
+// isErrorType: t is the predeclared error interface.
+func isErrorType(t types.Type) bool {
+	return types.Identical(t, types.Universe.Lookup("error").Type())
 }
